@@ -194,6 +194,12 @@ def build_mtl(case):
         used = [f for j, f in enumerate(feats) if (i + j) % 3 != 2] or [feats[0]]
         loss = sum((f * _rt(g, tuple(f.shape), dtype)).sin().sum() for f in used) * (1.0 + 0.25 * i)
         loss = loss + (p * p).sum() * used[0].sum() + p.sum()
+        if case["seed"] % 3 == 1 and len(feats) >= 2 and feats[1].numel() >= 2 and i % 2 == 0:
+            # a pairwise MARGIN on the second feature: its gradient w.r.t. that whole feature is (+t, -t, 0, ...), which sums to
+            # exactly zero without being zero (a row whose cotangent "looks" null to a sum / truthiness test)
+            f1 = feats[1].reshape(-1)
+            loss = sum((f * _rt(g, tuple(f.shape), dtype)).sin().sum() for f in feats[:1]) * (1.0 + 0.25 * i) \
+                + p[0] * (f1[0] - f1[1]) + (p * p).sum()
         losses.append(loss)
         tps.append([p])
     return {"losses": losses, "features": feats, "tasks_params": tps, "shared_params": [s1, s2], "hook": h,
